@@ -513,3 +513,16 @@ def execute(w, ev):
     for k, o in enumerate(outs):
         w.bind("e%d.%d" % (i, k), o)
     return "ok", outs
+
+
+# -- transformations ---------------------------------------------------------------------
+@op("uniquify")
+def _(w, e):
+    from spydrnet.uniquify import uniquify
+    uniquify(need(w, e["on"]))
+
+
+@op("flatten")
+def _(w, e):
+    from spydrnet.flatten import flatten
+    flatten(need(w, e["on"]))
